@@ -53,7 +53,7 @@ def inplace_ops(tkey):
             ops.append({"k": "ip_mcmap", "i": i, "f": "controller", "v": 3})
     if t.type == "MetaModule":
         ops += [{"k": "mm_count", "v": 3}, {"k": "mm_count", "v": 96}, {"k": "mm_label", "i": 0, "v": "lbl"},
-                {"k": "mm_map", "i": 0, "v": [1, 2]}, {"k": "mm_inner_module"}, {"k": "mm_inner_name"},
+                {"k": "mm_map", "i": 0, "v": [1, 2]}, {"k": "mm_inner_module"}, {"k": "mm_inner_ctl"}, {"k": "mm_inner_name"},
                 {"k": "mm_uvalue", "i": 1, "v": 1234}, {"k": "mm_remap_seq", "first": "MultiSynth.transpose"},
                 {"k": "mm_remap_seq", "first": "VorbisPlayer.finetune"}, {"k": "mm_remap_seq", "first": "Lfo.freq"},
                 {"k": "mm_remap_seq", "first": "Amplifier.balance"}]
@@ -62,6 +62,7 @@ def inplace_ops(tkey):
                 {"k": "sm_env_point0", "e": "panning_envelope"}, {"k": "sm_env_flag", "e": "volume_envelope"},
                 {"k": "sm_env_append", "e": "effect0"}, {"k": "sm_notemap"}, {"k": "sm_sample", "i": 0},
                 {"k": "sm_sample", "i": 127}, {"k": "sm_effect"}, {"k": "sm_vibrato"}, {"k": "sm_legacy_side", "points": 0},
+                {"k": "sm_bytearray", "i": 3}, {"k": "sm_bytearray_edit", "i": 3},
                 {"k": "sm_legacy_side", "points": 2}]
     if t.type == "SpectraVoice":
         ops += [{"k": "sv_harmonic", "i": 0}, {"k": "sv_harmonic", "i": 15}]
@@ -119,6 +120,14 @@ def apply_inplace(mod, op):
         mod.update_user_defined_controllers()
     elif k == "mm_inner_module":
         mod.project.new_module(rv.m.Amplifier, volume=77)
+    elif k == "mm_inner_ctl":
+        # edit a controller of an EXISTING embedded module (the one a user-defined controller may be mapped to)
+        tgt = next((x for x in mod.project.modules[1:] if x is not None and x.controllers), None)
+        if tgt is not None:
+            name = next(iter(tgt.controllers))
+            t_ = tgt.controllers[name].instance_value_type(tgt)
+            if hasattr(t_, "max"):
+                setattr(tgt, name, t_.max if getattr(tgt, name) != t_.max else t_.min)
     elif k == "mm_inner_name":
         mod.project.name = "inner"
         mod.project.initial_bpm = 99
@@ -191,6 +200,19 @@ def apply_inplace(mod, op):
         mod.vibrato_depth = 9
         mod.volume_fadeout = 100
         mod.editor_cursor = 5
+    elif k == "sm_bytearray":
+        # an editable sample buffer (the writer and `frames` accept any bytes-like object)
+        smp = mod.Sample()
+        smp.data = bytearray(range(64))
+        mod.samples[op["i"]] = smp
+    elif k == "sm_bytearray_edit":
+        smp = mod.samples[op["i"]]
+        if smp is None:
+            smp = mod.samples[op["i"]] = mod.Sample()
+            smp.data = bytearray(range(64))
+        if isinstance(smp.data, (bytes,)):
+            smp.data = bytearray(smp.data)      # rebinding on THIS object only
+        smp.data[0:4] = b"\x7f\x7e\x7d\x7c"
     elif k == "sv_harmonic":
         h = mod.harmonics[op["i"]]
         h.freq_hz, h.volume, h.width = 2000, 100, 9
@@ -453,6 +475,54 @@ def legacy_side_objects():
     return n, vs[:6]
 
 
+# ----------------------------------------------------------------------------- foreign files
+def foreign_file_loads():
+    """Loading files this library did not write -- more stored controller values than the type has, values outside their
+    ranges, option bytes all set, shorter records -- must not change any OTHER object: a module of the same type built
+    before, and a module built afterwards, stay what they were."""
+    from struct import pack
+
+    import rv.api as rv
+    from rvref import codec
+
+    vs, n = [], 0
+    for tkey in deviate.type_keys():
+        base = deviate.new_module(tkey)
+        data = C.save(rv.Synth(base))
+        chunks = codec.parse_chunks(data)
+        o0 = observe_module(base)
+        pr = pristine(tkey)
+        variants = []
+        ci = next((i for i, (cid, _d) in enumerate(chunks) if cid == b"CMID"), None)
+        if ci is not None:
+            for extra in ([1], [1, 2, 3]):
+                new = chunks[:ci] + [(b"CVAL", pack("<i", v)) for v in extra] + \
+                    [(b"CMID", chunks[ci][1] + (b"\0" * 7 + b"\xff") * len(extra))] + chunks[ci + 1:]
+                variants.append(("surplus-cvals", codec.build_chunks(new)))
+        variants.append(("cvals-far-out-of-range", codec.build_chunks([(cid, pack("<i", 70000) if cid == b"CVAL" else d) for cid, d in chunks])))
+        variants.append(("cvals-negative", codec.build_chunks([(cid, pack("<i", -300) if cid == b"CVAL" else d) for cid, d in chunks])))
+        for name, x in variants:
+            n += 1
+            case = {"foreign_load": [tkey, name]}
+            try:
+                y = C.load_bytes(x)
+                C.save(y)
+                y.module.clone()
+            except Exception:
+                pass
+            o1 = observe_module(base)
+            d = S.diff(o0[0], o1[0])
+            if d or o0[1] != o1[1]:
+                vs.append(C.viol("other-object-changed", {"type": tkey, "op": "load-foreign-file:" + name, "origin": "built-before",
+                                                          "what": C.first_diff_key(d) or "bytes"}, {"diff": S.diff_text(d)}, case))
+            now = observe_module(deviate.new_module(tkey))
+            d = S.diff(pr[0], now[0])
+            if d or now[1] != pr[1]:
+                vs.append(C.viol("default-object-changed", {"type": tkey, "op": "load-foreign-file:" + name, "origin": "constructed-after",
+                                                            "what": C.first_diff_key(d) or "bytes"}, {"diff": S.diff_text(d)}, case))
+    return n, vs[:8]
+
+
 # ----------------------------------------------------------------------------- containers
 def container_histories():
     return [
@@ -596,6 +666,8 @@ def check_container(hist):
 
 
 def run_case(case):
+    if "foreign_load" in case:
+        return [v for v in foreign_file_loads()[1] if v["case"] == case]
     if "legacy_side" in case:
         return [v for v in legacy_side_objects()[1] if v["case"] == case]
     if "failed_ctor" in case:
@@ -606,6 +678,13 @@ def run_case(case):
 
 
 def _task(t):
+    if t[0] == "foreign_loads":
+        r = C.new_result()
+        n, vs = foreign_file_loads()
+        r["evals"] = n
+        r["violations"] = vs
+        r["sample"] = {"foreign_load": ["Sampler", "surplus-cvals"]}
+        return r
     if t[0] == "legacy_side":
         r = C.new_result()
         n, vs = legacy_side_objects()
@@ -651,7 +730,7 @@ def run(ctx):
     treeenv.setup()
     for k in deviate.type_keys():
         pristine(k)  # computed in the parent BEFORE the pool forks and before any mutation
-    tasks = [("containers",), ("failed_ctors",), ("legacy_side",)]
+    tasks = [("containers",), ("failed_ctors",), ("legacy_side",), ("foreign_loads",)]
     total = 0
     for k in deviate.type_keys():
         devs = deviate.module_devs(k, ctx.seed, spikes="few", opt8="few")
